@@ -192,11 +192,10 @@ pub struct Spec<'s> {
     pub wrong_len_msg: &'static str,
     /// the model's single-observation calling form (1-D record), where the type has one
     pub row_form: Option<Box<dyn Fn(ArrayView1<f64>) -> Cell + 's>>,
-    pub only: Option<Only>,
 }
 
 impl<'s> Spec<'s> {
-    pub fn new(kind: &'static str, instance: usize, max_len: usize, pool: &'s [Vec<f64>], only: &Option<Only>) -> Self {
+    pub fn new(kind: &'static str, instance: usize, max_len: usize, pool: &'s [Vec<f64>]) -> Self {
         Spec {
             kind,
             instance,
@@ -207,7 +206,6 @@ impl<'s> Spec<'s> {
             margin: None,
             wrong_len_msg: "The number of data points must match the number of output targets.",
             row_form: None,
-            only: only.clone(),
         }
     }
     fn p(&self) -> usize {
